@@ -367,6 +367,10 @@ def run_check(pid, tier, seed):
         else:
             hb_ok2 = False
     untranslated = tr.get("t2", {}).get("untranslated", [])
+    # an overridden provided method of the mutable iterators concerns the properties that quantify over every way of consuming
+    # them (C03 speaks about next, next_back and len only)
+    untranslated = [u for u in untranslated
+                    if not str(u[0]).startswith("IterMut.override:") or pid in ("C01", "C06", "C17")]
     corr_runs = []
     if not hb_ok:
         notes.append("harness does not build against /repo: " + hb_log[-600:])
